@@ -766,3 +766,264 @@ Proof.
   2:{ intros [j o] Hjo. cbn [snd]. apply Horig0. destruct (in_enum_all' _ _ _ _ Hjo) as (jj & _ & Hn). eapply nth_opt_In; exact Hn. }
   apply select_orig.
 Qed.
+
+(* ================================================================== *)
+(* Re-targeting included: an earlier insertion on the SAME tensor that lists all
+   consumers of the last instruction re-targets it onto its own result (the
+   chain [.., ADD_QUANTIZE D, .., ADD_DEQUANTIZE C] with C a sub-list of D that
+   horizontal grouping produces at depth 2).  The tensor the last instruction
+   names changes along the run; what its listed consumers read there does not. *)
+Definition sub_of (C : list Z) (s : inst) : Prop :=
+  C <> [] /\ forall c, In c C -> memZ c (i_consumers s) = true.
+Definition step_ok2 (C : list Z) (s : inst) : Prop :=
+  0 <= i_tensor s /\ Forall (fun c => -1 <= c) (i_consumers s) /\
+  (i_trans s = Tr_QUANTIZE_TENSOR \/
+   ((i_trans s = Tr_ADD_QUANTIZE \/ i_trans s = Tr_ADD_DEQUANTIZE) /\ (disj_from C s \/ sub_of C s))).
+Definition same_but_target (a b : inst) : Prop :=
+  i_trans b = i_trans a /\ i_consumers b = i_consumers a /\ i_params b = i_params a.
+
+Lemma upd_retarget_last a i0 prev np ot :
+  sub_of (i_consumers i0) prev ->
+  exists i0', update_instructions (a ++ [i0]) prev np ot = update_instructions a prev np ot ++ [i0'] /\
+              same_but_target i0 i0' /\ i_tensor i0' = ot.
+Proof.
+  intros [Hne Hsub]. unfold update_instructions. rewrite map_app. cbn [map].
+  assert (E : existsb (fun c => memZ c (i_consumers prev)) (i_consumers i0) = true).
+  { destruct (i_consumers i0) as [|c cs] eqn:Ec; [contradiction|]. cbn [existsb]. rewrite (Hsub c (or_introl eq_refl)). reflexivity. }
+  rewrite E. eexists. split; [reflexivity|]. split; [repeat split|reflexivity].
+Qed.
+
+Lemma upd_step_ok2 C a prev np ot : 0 <= ot -> Forall (step_ok2 C) a -> Forall (step_ok2 C) (update_instructions a prev np ot).
+Proof.
+  intros Hot H. unfold update_instructions. apply Forall_forall. intros j Hj. apply in_map_iff in Hj.
+  destruct Hj as (j0 & <- & Hj0). rewrite Forall_forall in H. specialize (H _ Hj0).
+  destruct (existsb _ (i_consumers j0)); [|exact H]. destruct H as (A & B & D). split; [exact Hot|]. split; [exact B|exact D].
+Qed.
+
+Lemma apply_single_insertion_later st k s later st1 later1 g :
+  0 <= i_tensor s -> (i_trans s = Tr_ADD_QUANTIZE \/ i_trans s = Tr_ADD_DEQUANTIZE) ->
+  nth_opt (m_subgraphs (ps_model st)) k = Some g ->
+  apply_single st (Z.of_nat k) s later = Ok (st1, later1) ->
+  exists X, later1 = update_instructions later s X (ntens g).
+Proof.
+  intros Hit Htr Hg H. assert (Hs : 0 <= Z.of_nat k) by lia. rewrite apply_single_unfold in H.
+  destruct (py_index (ps_orig st) (Z.of_nat k)) as [om|]; cbn [bind] in H; [|discriminate].
+  destruct (py_index (ps_added st) (Z.of_nat k)) as [am|]; cbn [bind] in H; [|discriminate].
+  destruct (py_index (m_subgraphs (ps_model st)) (Z.of_nat k)) as [g0|] eqn:Eg; cbn [bind] in H; [|discriminate].
+  apply (py_index_nonneg _ _ _ Hs) in Eg. destruct Eg as [Eg _]. rewrite Nat2Z.id, Hg in Eg. inversion Eg; subst g0.
+  destruct (resolve om am (i_producer s)) as [producer|]; cbn [bind] in H; [|discriminate].
+  destruct (mapM _ (i_consumers s)) as [cs|]; cbn [bind] in H; [|discriminate].
+  destruct (trans_of s (m_opcodes (ps_model st)) (m_buffers (ps_model st)) g producer cs)
+    as [[[[c' b'] g1] info]|] eqn:T; cbn [bind] in H; [|discriminate].
+  assert (Hinfo : to_added info = 1 /\ to_tensor info = ntens g).
+  { unfold trans_of in T. destruct Htr as [E|E]; rewrite E in T; unfold insert_common in T;
+      destruct (add_op_code _ _) as [ci cd];
+      (destruct (get_tensor g (i_tensor s)); cbn [bind] in T; [|discriminate]);
+      (match type of T with bind ?m _ = _ => destruct m as [[b3 g3]|] end; cbn [bind] in T; [|discriminate]);
+      (destruct (py_min cs); cbn [bind] in T; [|discriminate]);
+      (match type of T with bind ?m _ = _ => destruct m end; cbn [bind] in T; [|discriminate]);
+      (destruct (_ <? 0); [discriminate|]); inversion T; subst; split; reflexivity. }
+  destruct Hinfo as [Ha Hto]. rewrite Ha in H. cbn [Z.eqb] in H. inversion H; subst. rewrite Hto. eexists. reflexivity.
+Qed.
+
+Lemma select_select_sub C D : (forall c, In c C -> memZ c D = true) -> forall P, select C (select D P) = select C P.
+Proof.
+  intros Hs P. unfold select, enumerate. generalize 0 as j0. induction P as [|e P IH]; intros j0; [reflexivity|].
+  cbn [enumerate_from map]. f_equal; [|apply IH].
+  unfold keep_if. cbn [fst snd]. destruct (memZ j0 C) eqn:EC.
+  - apply memZ_In in EC. rewrite (Hs _ EC). reflexivity.
+  - f_equal. destruct (memZ j0 D); [reflexivity|]. rewrite map_map. reflexivity.
+Qed.
+
+Fixpoint ok_list (C : list Z) (l : list inst) : Prop :=
+  match l with
+  | [] => True
+  | s :: r => step_ok2 C s /\
+              (disj_from C s -> forall s2, In s2 r -> sub_of C s2 ->
+                                forall c, In c (i_consumers s2) -> memZ c (i_consumers s) = false) /\
+              ok_list C r
+  end.
+
+Lemma upd_consumers a prev np ot : map i_consumers (update_instructions a prev np ot) = map i_consumers a.
+Proof.
+  unfold update_instructions. rewrite map_map. apply map_ext. intros j. destruct (existsb _ _); reflexivity.
+Qed.
+
+Lemma in_upd a prev np ot j : In j (update_instructions a prev np ot) ->
+  exists j0, In j0 a /\ i_consumers j = i_consumers j0 /\ i_trans j = i_trans j0 /\
+    ((existsb (fun c => memZ c (i_consumers prev)) (i_consumers j0) = true /\ i_tensor j = ot) \/
+     (existsb (fun c => memZ c (i_consumers prev)) (i_consumers j0) = false /\ j = j0)).
+Proof.
+  unfold update_instructions. intros H. apply in_map_iff in H. destruct H as (j0 & <- & Hj0). exists j0. split; [exact Hj0|].
+  destruct (existsb _ (i_consumers j0)) eqn:E; cbn; repeat split; auto.
+Qed.
+
+Lemma upd_ok_list C prev np ot : 0 <= ot -> forall a, ok_list C a -> ok_list C (update_instructions a prev np ot).
+Proof.
+  intros Hot. induction a as [|s r IH]; intros H; [exact I|]. cbn [ok_list] in H. destruct H as (A & B & D).
+  change (update_instructions (s :: r) prev np ot) with
+    ((if existsb (fun c => memZ c (i_consumers prev)) (i_consumers s)
+      then {| i_trans := i_trans s; i_tensor := ot; i_producer := np; i_consumers := i_consumers s; i_params := i_params s |}
+      else s) :: update_instructions r prev np ot).
+  cbn [ok_list]. split; [|split; [|apply IH; exact D]].
+  - destruct (existsb _ (i_consumers s)); [|exact A]. destruct A as (A1 & A2 & A3). split; [exact Hot|]. split; [exact A2|exact A3].
+  - intros Hd s2 Hs2 Hsub c Hc. destruct (in_upd _ _ _ _ _ Hs2) as (j0 & Hj0 & Ec & _ & _).
+    assert (Hd' : disj_from C s) by (destruct (existsb _ (i_consumers s)); exact Hd).
+    assert (Hsub' : sub_of C j0) by (unfold sub_of in *; rewrite <- Ec; exact Hsub).
+    rewrite Ec in Hc. pose proof (B Hd' j0 Hj0 Hsub' c Hc) as R.
+    destruct (existsb _ (i_consumers s)); exact R.
+Qed.
+
+Section Mixed2.
+  Variable m0 : model.
+  Variable k : nat.
+  Variable g0 : subgraph.
+  Variable t : Z.
+  Variable C : list Z.
+  Hypothesis Hu : uids_ok m0.
+  Hypothesis Hg0 : nth_opt (m_subgraphs m0) k = Some g0.
+  Definition Jinv2 (tau : Z) (g : subgraph) : Prop :=
+    select C (readers_profile tau g) = select C (readers_profile t g0).
+
+  Lemma mixed_prefix2 : forall n steps i0c st g rest fuel st2,
+    n = length steps -> i_consumers i0c = C ->
+    ok_list C steps ->
+    (forall s, In s steps -> sub_of C s -> i_tensor s = i_tensor i0c) ->
+    ginv st (map (pair (Z.of_nat k)) (steps ++ [i0c]) ++ rest) -> sinv m0 st ->
+    nth_opt (m_subgraphs (ps_model st)) k = Some g -> 0 <= i_tensor i0c < ntens g -> Jinv2 (i_tensor i0c) g ->
+    apply_insts st (Z.of_nat k) (steps ++ [i0c]) (n + fuel) = Ok st2 ->
+    exists stq gq i0q, apply_insts stq (Z.of_nat k) [i0q] fuel = Ok st2 /\
+      ginv stq (map (pair (Z.of_nat k)) [i0q] ++ rest) /\ sinv m0 stq /\ same_but_target i0c i0q /\
+      nth_opt (m_subgraphs (ps_model stq)) k = Some gq /\ 0 <= i_tensor i0q < ntens gq /\ Jinv2 (i_tensor i0q) gq.
+  Proof.
+    induction n as [|n IH]; intros steps i0c st g rest fuel st2 En HC Hok Htau HG HS Hg Ht HJ H.
+    - destruct steps; [|discriminate]. cbn [app Nat.add] in *. exists st, g, i0c.
+      split; [exact H|]. split; [exact HG|]. split; [exact HS|]. split; [repeat split|]. split; [exact Hg|]. split; [exact Ht|exact HJ].
+    - destruct steps as [|s steps]; [discriminate|]. cbn [length] in En. injection En as En.
+      cbn [ok_list] in Hok. destruct Hok as ((Hsnn & HsC & Hkind) & Hlater & Hok').
+      cbn [app Nat.add apply_insts] in H.
+      assert (Hins : is_insertion (i_trans s) = true) by (destruct Hkind as [->|[[->| ->] _]]; reflexivity).
+      rewrite Hins in H.
+      destruct (apply_single st (Z.of_nat k) s (steps ++ [i0c])) as [[st1 later1]|] eqn:E; cbn [bind fst snd] in H; [|discriminate].
+      cbn [app map] in HG.
+      pose proof (apply_single_ginv _ _ _ _ _ _ _ HG E) as HG1.
+      pose proof (apply_single_sinv _ _ _ _ _ _ _ _ Hu HG HS E) as HS1.
+      assert (Hs0 : 0 <= Z.of_nat k) by lia.
+      assert (Htau' : forall s2, In s2 steps -> sub_of C s2 -> i_tensor s2 = i_tensor i0c)
+        by (intros s2 H2; apply Htau; right; exact H2).
+      destruct Hkind as [Hq|[Htr Hrel]].
+      + destruct (apply_single_inplace st (Z.of_nat k) s (steps ++ [i0c]) st1 later1 k g Hs0 Hq Hg E) as (-> & g1 & Hg1 & Hops1 & Hn1).
+        assert (HJ1 : Jinv2 (i_tensor i0c) g1) by (unfold Jinv2, readers_profile in *; rewrite Hops1; exact HJ).
+        apply (IH steps i0c st1 g1 rest fuel st2 En HC Hok' Htau' HG1 HS1 Hg1 ltac:(lia) HJ1 H).
+      + destruct (apply_single_insertion_later _ _ _ _ _ _ _ Hsnn Htr Hg E) as (X & ->).
+        destruct (insertion_step_profiles m0 k st s (steps ++ [i0c]) st1 _ rest g0 g Hu HG HS Hg0 Hg Htr HsC E)
+          as (g1 & Hg1 & N1 & Hrng & PN & PO).
+        assert (Hot : 0 <= ntens g) by (unfold ntens, lenZ; lia).
+        assert (Hlen : n = length (update_instructions steps s X (ntens g))) by (unfold update_instructions; rewrite map_length; exact En).
+        destruct Hrel as [Hdisj|Hsub].
+        * (* i0c is not re-targeted *)
+          rewrite <- HC in Hdisj. rewrite (upd_keep_last steps i0c s X (ntens g) Hdisj) in H, HG1. rewrite HC in Hdisj.
+          assert (HJ1 : Jinv2 (i_tensor i0c) g1).
+          { destruct (Z.eq_dec (i_tensor s) (i_tensor i0c)) as [Et|Nt].
+            - unfold Jinv2. rewrite <- Et at 1. rewrite PO, Et. rewrite select_deselect; [exact HJ|exact Hdisj].
+            - destruct (apply_single_profile st (Z.of_nat k) s (steps ++ [i0c]) st1 _ k g (i_tensor i0c) Hs0 Hsnn Hg Ht (or_intror Nt) E)
+                as (g1' & Hg1' & P1). rewrite Hg1 in Hg1'. inversion Hg1'; subst g1'. unfold Jinv2. rewrite P1. exact HJ. }
+          assert (Htau1 : forall s2, In s2 (update_instructions steps s X (ntens g)) -> sub_of C s2 -> i_tensor s2 = i_tensor i0c).
+          { intros s2 H2 Hsub2. destruct (in_upd _ _ _ _ _ H2) as (j0 & Hj0 & Ec & _ & [[Eb _]|[_ ->]]).
+            - exfalso. apply existsb_exists in Eb. destruct Eb as (c & Hc & Hm).
+              assert (Hsub0 : sub_of C j0) by (unfold sub_of in *; rewrite <- Ec; exact Hsub2).
+              rewrite (Hlater Hdisj j0 Hj0 Hsub0 c Hc) in Hm. discriminate.
+            - apply Htau'; assumption. }
+          apply (IH _ i0c st1 g1 rest fuel st2 Hlen HC (upd_ok_list C s X (ntens g) Hot steps Hok') Htau1 HG1 HS1 Hg1 ltac:(lia) HJ1 H).
+        * (* i0c is re-targeted onto the new tensor *)
+          assert (Hs_tau : i_tensor s = i_tensor i0c) by (apply Htau; [left; reflexivity|exact Hsub]).
+          rewrite <- HC in Hsub.
+          destruct (upd_retarget_last steps i0c s X (ntens g) Hsub) as (i0' & EU & (S1 & S2 & S3) & Etn).
+          rewrite HC in Hsub. rewrite EU in H, HG1.
+          assert (HJ1 : Jinv2 (i_tensor i0') g1).
+          { unfold Jinv2. rewrite Etn, PN, Hs_tau. rewrite select_select_sub; [exact HJ|exact (proj2 Hsub)]. }
+          assert (Htau1 : forall s2, In s2 (update_instructions steps s X (ntens g)) -> sub_of C s2 -> i_tensor s2 = i_tensor i0').
+          { intros s2 H2 Hsub2. rewrite Etn. destruct (in_upd _ _ _ _ _ H2) as (j0 & Hj0 & Ec & _ & [[_ Et2]|[Eb ->]]); [exact Et2|].
+            exfalso. destruct Hsub as [Hne Hall]. destruct Hsub2 as [_ Hall2]. destruct C as [|c0 C'] eqn:EC; [contradiction|].
+            assert (Hm : existsb (fun c => memZ c (i_consumers s)) (i_consumers j0) = true).
+            { apply existsb_exists. exists c0. split; [apply memZ_In; apply Hall2; left; reflexivity|apply Hall; left; reflexivity]. }
+            congruence. }
+          apply (IH _ i0' st1 g1 rest fuel st2 Hlen (eq_trans S2 HC) (upd_ok_list C s X (ntens g) Hot steps Hok') Htau1 HG1 HS1 Hg1
+                    ltac:(rewrite Etn; lia) HJ1) in H.
+          destruct H as (stq & gq & i0q & A1 & A2 & A3 & (B1 & B2 & B3) & A4 & A5 & A6).
+          exists stq, gq, i0q. split; [exact A1|]. split; [exact A2|]. split; [exact A3|].
+          split; [repeat split; congruence|]. split; [exact A4|]. split; [exact A5|exact A6].
+  Qed.
+End Mixed2.
+
+Theorem last_instruction_readers m0 pre ti0 post m' k g0 steps i0 :
+  Forall wf_sg (m_subgraphs m0) -> uids_ok m0 ->
+  (forall ti i, In ti (pre ++ ti0 :: post) -> In i (ti_insts ti) -> sane m0 (ti_sg ti) i) ->
+  ids_ok (pre ++ ti0 :: post) ->
+  nth_opt (m_subgraphs m0) k = Some g0 ->
+  ti_sg ti0 = Z.of_nat k -> ti_insts ti0 = steps ++ [i0] ->
+  ok_list (i_consumers i0) steps -> (forall s, In s steps -> i_tensor s = i_tensor i0) ->
+  (i_trans i0 = Tr_ADD_QUANTIZE \/ i_trans i0 = Tr_ADD_DEQUANTIZE) ->
+  Forall (fun c => -1 <= c) (i_consumers i0) ->
+  never_names k (i_tensor i0) pre ->
+  transform_graph m0 (pre ++ ti0 :: post) = Ok m' ->
+  exists x' g', nth_opt (m_subgraphs m') k = Some g' /\ ntens g0 <= x' /\
+                readers_profile x' g' = moved_profile (i_tensor i0) (i_consumers i0) g0.
+Proof.
+  intros Hwf Hu Hsane Hids Hg0 Hsg Hins Hok Hsame Htr HC Hnn H.
+  set (t := i_tensor i0) in *. set (C := i_consumers i0) in *.
+  unfold transform_graph in H.
+  match type of H with bind ?x _ = _ => destruct x as [st3|] eqn:E end; cbn [bind] in H; [|discriminate].
+  inversion H; subst m'; clear H.
+  fold (run_all (pre ++ ti0 :: post) (init_pstate m0)) in E. unfold run_all in E. rewrite foldM_app in E.
+  fold (run_all pre (init_pstate m0)) in E.
+  destruct (run_all pre (init_pstate m0)) as [st0|] eqn:E1; cbn [bind] in E; [|discriminate].
+  cbn [foldM] in E. rewrite Hsg, Hins in E.
+  destruct (apply_insts st0 (Z.of_nat k) (steps ++ [i0]) (length (steps ++ [i0]))) as [st2|] eqn:E2; cbn [bind] in E; [|discriminate].
+  fold (run_all post st2) in E.
+  pose proof (init_ginv m0 _ Hwf Hsane) as HG0. rewrite pend_of_app in HG0.
+  destruct (run_both_rest m0 Hu pre _ _ _ HG0 (init_sinv _ Hu) E1) as [HGp HSp].
+  destruct (ids_ok_app _ _ Hids) as [Hids_pre Hids2]. inversion Hids2 as [|? ? _ Hids_post]; subst.
+  assert (Hk0 : (k < length (m_subgraphs (ps_model st0)))%nat) by (destruct HSp as [SL _]; rewrite SL; eapply nth_opt_Some_lt; exact Hg0).
+  destruct (nth_opt_lt_Some (m_subgraphs (ps_model st0)) k Hk0) as [gp Hgp].
+  assert (Ht0 : 0 <= t < ntens g0).
+  { assert (Hin0 : In ti0 (pre ++ ti0 :: post)) by (apply in_app_iff; right; left; reflexivity).
+    assert (Hi0 : In i0 (ti_insts ti0)) by (rewrite Hins; apply in_app_iff; right; left; reflexivity).
+    destruct (Hsane ti0 i0 Hin0 Hi0) as [_ Hs2]. rewrite Hsg, Nat2Z.id in Hs2. destruct (Hs2 _ Hg0) as (R & _). exact R. }
+  destruct (run_all_profile k t pre (init_pstate m0) st0 g0 Hids_pre Hnn Hg0 Ht0 E1) as (g_ & Hg_ & Ptp & Hnp).
+  rewrite Hgp in Hg_. inversion Hg_; subst g_.
+  cbn [pend_of flat_map] in HGp. rewrite Hsg, Hins in HGp.
+  rewrite app_length in E2. cbn [length] in E2.
+  assert (HJp : Jinv2 g0 t C t gp) by (unfold Jinv2; rewrite Ptp; reflexivity).
+  destruct (mixed_prefix2 m0 k g0 t C Hu Hg0 (length steps) steps i0 st0 gp (pend_of post) 1 st2 eq_refl eq_refl Hok
+              (fun s Hs _ => Hsame s Hs) HGp HSp Hgp ltac:(fold t; lia) HJp E2)
+    as (stq & gq & i0q & EA & HGq & HSq & (Q1 & Q2 & Q3) & Hgq & Htq & HJq).
+  cbn [apply_insts] in EA.
+  assert (Htrq : i_trans i0q = Tr_ADD_QUANTIZE \/ i_trans i0q = Tr_ADD_DEQUANTIZE) by (rewrite Q1; exact Htr).
+  assert (Hisins : is_insertion (i_trans i0q) = true) by (destruct Htrq as [-> | ->]; reflexivity).
+  rewrite Hisins in EA.
+  destruct (apply_single stq (Z.of_nat k) i0q []) as [[st1 later1]|] eqn:ES; cbn [bind fst snd] in EA; [|discriminate].
+  pose proof (apply_single_nil _ _ _ _ _ ES) as ->. cbn [apply_insts] in EA. inversion EA; subst st2. clear EA.
+  cbn [map app] in HGq.
+  assert (HCq : Forall (fun c => -1 <= c) (i_consumers i0q)) by (rewrite Q2; exact HC).
+  destruct (insertion_step_profiles m0 k stq i0q [] st1 [] (pend_of post) g0 gq Hu HGq HSq Hg0 Hgq Htrq HCq ES)
+    as (g1 & Hg1 & N1 & _ & PN & _).
+  assert (Hn0q : ntens g0 <= ntens gq).
+  { destruct HSq as [_ SKq]. assert (Hkq : (k < length (m_subgraphs (ps_model stq)))%nat) by (eapply nth_opt_Some_lt; exact Hgq).
+    destruct HGq as [Loq _ _ _]. destruct (nth_opt_lt_Some (ps_orig stq) k ltac:(lia)) as [omq Hoq].
+    destruct (SKq _ _ _ _ Hg0 Hgq Hoq) as [_ _ _ [T _] _ _]. exact T. }
+  assert (Hnn_post : never_names k (ntens gq) post).
+  { intros ti i Hti Hsgi Hi _ Heq.
+    assert (Hin : In ti (pre ++ ti0 :: post)) by (apply in_app_iff; right; right; exact Hti).
+    destruct (Hsane ti i Hin Hi) as [_ Hs2]. rewrite Hsgi, Nat2Z.id in Hs2. destruct (Hs2 _ Hg0) as (R & _). lia. }
+  destruct (run_all_profile k (ntens gq) post st1 st3 g1 Hids_post Hnn_post Hg1 ltac:(lia) E) as (g3 & Hg3 & P3 & _).
+  exists (ntens gq), g3. split; [exact Hg3|]. split; [exact Hn0q|].
+  rewrite P3, PN, Q2. fold C. unfold Jinv2 in HJq. rewrite HJq.
+  assert (Horig0 : forall o, In o (sg_ops g0) -> is_original o = true).
+  { intros o Ho'. unfold uids_ok in Hu. rewrite Forall_forall in Hu. specialize (Hu _ (nth_opt_In _ _ _ Hg0)).
+    rewrite Forall_forall in Hu. specialize (Hu _ Ho'). unfold is_original. destruct (Z.eqb_spec (o_uid o) UID_INSERTED); [contradiction|reflexivity]. }
+  unfold select, moved_profile, readers_profile, enumerate. rewrite (filter_all is_original _ Horig0).
+  rewrite (filter_all (fun ko : Z * op => is_original (snd ko)) (enumerate_from 0 (sg_ops g0))).
+  2:{ intros [j o] Hjo. cbn [snd]. apply Horig0. destruct (in_enum_all' _ _ _ _ Hjo) as (jj & _ & Hn). eapply nth_opt_In; exact Hn. }
+  apply select_orig.
+Qed.
